@@ -301,6 +301,15 @@ def run(ctx):
         res.add(Finding('C02', 'C02.o', 'R-PROV', rd2.file, rd2.qualname, r_.lineno, norm(r_)[:100],
                         'the replay reader turns another failure (a data handler that cannot restore the entry) into the missing-key error: the missing-key '
                         'policy (substitute value / run the original) is then applied to a call that does have an entry in the recording'))
+    # the reader answers from the recording being replayed alone: it keeps nothing on the recorder between calls (what it kept for one replay
+    # would answer the calls of the next)
+    rd_w = [(n, w) for n, w in _cm2.instance_writes(rd2.node)]
+    co2.instance('the replay reader writes no recorder state', rd2.qualname, not rd_w)
+    for n, w in rd_w[:1]:
+        res.add(Finding('C02', 'C02.o', 'R-PROV', rd2.file, rd2.qualname, n.lineno, norm(n)[:100],
+                        'the replay reader keeps state on the recorder (%s): what it remembered while one recording was replayed (its keys, an entry) '
+                        'is still there when another recording is replayed, so calls present in that recording are taken for missing - or answered '
+                        'from the earlier one' % w))
     # ---- C02.p replay wins over recording: play() called from inside a recorded operation (both a played and an active recording exist)
     cp2 = res.clause('C02.p', 'R-TYPESTATE', 'with a recording in progress AND a recording being replayed, the decorators replay: no body runs, nothing is '
                      'written to the recording in progress', floor=3)
